@@ -14,6 +14,8 @@ import (
 	"github.com/php-any/origami/node"
 	"github.com/php-any/origami/parser"
 	"github.com/php-any/origami/runtime"
+	"github.com/php-any/origami/std"
+	"github.com/php-any/origami/std/php"
 	"github.com/php-any/origami/verifharness/hx"
 	"github.com/php-any/origami/verifsim"
 )
@@ -103,7 +105,10 @@ func gen(r *verifsim.Rng, tier string) (any, hx.Sched) {
 	pool := 1 + r.Intn(len(names)) // small pools collide more
 	kinds := []string{"addclass", "addclass", "addiface", "addfunc", "addfunc", "getclass", "getclass", "getiface", "getfunc", "loadpkg",
 		"setconst", "getconst", "global", "setfile", "getfile", "allclasses", "allfuncs", "getorload", "getorload",
-		"getclass_ci", "getfunc_bs", "loadpkg_bs", "getconst_bs", "addns", "findfile", "regreflect", "newobj", "newobj"}
+		"getclass_ci", "getfunc_bs", "loadpkg_bs", "getconst_bs", "addns", "findfile", "regreflect", "newobj", "newobj",
+		// definitions made the way request handlers make them: by parsing source on a parser clone
+		// (registration at parse time), and through script builtins executed on the shared VM
+		"pclass", "piface", "pfunc", "sdefine", "sgetconst", "sclassexists", "sfuncexists", "sifaceexists"}
 	// swarm: disable a random subset of kinds
 	var enabled []string
 	for _, k := range kinds {
@@ -208,8 +213,19 @@ func exec(t *testing.T, x any, s hx.Sched) *hx.Outcome {
 	o := &hx.Outcome{}
 	p := parser.NewParser()
 	vm := runtime.NewVM(p).(*runtime.VM)
-	var throws []string
-	vm.SetThrowControl(func(acl data.Control) { throws = append(throws, hx.CtlStr(acl)) })
+	// script builtins (define, class_exists, ...) for the script-level operations
+	std.Load(vm)
+	php.Load(vm)
+	// uncaught throws are noted per task (distinct slots, no synchronisation of the harness's own:
+	// the race detector is an oracle here)
+	thrown := make([]string, len(w.Tasks)+1)
+	vm.SetThrowControl(func(acl data.Control) {
+		ti := len(w.Tasks)
+		fmt.Sscanf(verifsim.TaskName(), "T%d", &ti)
+		if ti >= 0 && ti < len(thrown) {
+			thrown[ti] = hx.CtlStr(acl)
+		}
+	})
 	vm.AddNamespace("fx", fixture())
 	h := hx.NewHist(len(w.Tasks))
 
@@ -247,7 +263,37 @@ func exec(t *testing.T, x any, s hx.Sched) *hx.Outcome {
 		if _, ok := v.(*runtime.ReflectClass); ok {
 			return "found:R" // a class registered through RegisterReflectClass (the VM creates the object)
 		}
+		if gf, ok := v.(node.GetFrom); ok && gf.GetFrom() != nil {
+			// defined by parsing a snippet: the source path carries the tag
+			if src := gf.GetFrom().GetSource(); strings.HasPrefix(src, "/c10/") {
+				return "found:" + strings.TrimSuffix(strings.TrimPrefix(src, "/c10/"), ".php")
+			}
+		}
 		return "found:?"
+	}
+	// script-level operations report their result through __r(task, value)
+	srets := make([]string, len(w.Tasks))
+	vm.AddFunc(&hx.GoFunc{Name: "__r", Params: []string{"task", "val"}, Fn: func(ctx data.Context, a []data.Value) (data.GetValue, data.Control) {
+		ti := 0
+		fmt.Sscan(hx.ValStr(a[0]), &ti)
+		srets[ti] = hx.ValStr(a[1])
+		return data.NewNullValue(), nil
+	}})
+	// parseOn parses src on a clone of the VM's parser (definitions register at parse time) and runs it
+	parseOn := func(ti int, src, path string) string {
+		thrown[ti] = ""
+		pp := p.Clone()
+		prog, ctl := pp.ParseString(src, path)
+		if ctl != nil {
+			return "dup:" + firstLine(hx.CtlStr(ctl))
+		}
+		if _, ctl = prog.GetValue(vm.CreateContext(pp.GetVariables())); ctl != nil {
+			return "dup:" + firstLine(hx.CtlStr(ctl))
+		}
+		if thrown[ti] != "" { // the program node hands uncaught throws to the VM's throw control
+			return "dup:" + firstLine(thrown[ti])
+		}
+		return "ok"
 	}
 	cfg := s.Config(0)
 	res := hx.RunSpin(cfg, func(sim *verifsim.Sim) {
@@ -275,7 +321,8 @@ func exec(t *testing.T, x any, s hx.Sched) *hx.Outcome {
 							ret = "notfound"
 							break
 						}
-						_, isStub := tagOf[c]
+						_, isReflect := c.(*runtime.ReflectClass)
+						isStub := !isReflect // a stub registered through the Go API, or a class declared by a parsed snippet
 						obj, ctl := c.GetValue(vm.CreateContext(nil))
 						switch {
 						case ctl != nil:
@@ -292,6 +339,35 @@ func exec(t *testing.T, x any, s hx.Sched) *hx.Outcome {
 								}
 							}
 							ret = fmt.Sprintf("object:missing=%d", missing)
+						}
+					case "pclass", "piface", "pfunc":
+						decl := map[string]string{"pclass": "class %s { }", "piface": "interface %s { }", "pfunc": "function %s() { return 1; }"}[op.K]
+						ret = parseOn(ti, "<?php\n"+fmt.Sprintf(decl, op.N)+"\n", "/c10/"+id+".php")
+						if strings.HasPrefix(ret, "dup:") {
+							ret = "dup"
+						}
+					case "sdefine":
+						srets[ti] = ""
+						r0 := parseOn(ti, fmt.Sprintf("<?php\ntry { define(\"%s\", \"%s\"); __r(%d, \"ok\"); } catch (\\Throwable $e) { __r(%d, \"dup\"); }\n", op.N, id, ti, ti), "/c10s/"+id+".php")
+						ret = srets[ti]
+						if r0 != "ok" || ret == "" {
+							ret = "failed:" + r0
+						}
+					case "sgetconst":
+						srets[ti] = ""
+						// (existence only: a bare constant name is resolved when the snippet is parsed, not when it runs)
+						r0 := parseOn(ti, fmt.Sprintf("<?php\n__r(%d, defined(\"%s\") ? \"exists\" : \"notfound\");\n", ti, op.N), "/c10s/"+id+".php")
+						ret = srets[ti]
+						if r0 != "ok" || ret == "" {
+							ret = "failed:" + r0
+						}
+					case "sclassexists", "sfuncexists", "sifaceexists":
+						fn := map[string]string{"sclassexists": "class_exists", "sfuncexists": "function_exists", "sifaceexists": "interface_exists"}[op.K]
+						srets[ti] = ""
+						r0 := parseOn(ti, fmt.Sprintf("<?php\n__r(%d, %s(\"%s\") ? \"exists\" : \"notfound\");\n", ti, fn, op.N), "/c10s/"+id+".php")
+						ret = srets[ti]
+						if r0 != "ok" || ret == "" {
+							ret = "failed:" + r0
 						}
 					case "getclass":
 						c, ok := vm.GetClass(op.N)
@@ -449,6 +525,14 @@ func baseKind(k string) string {
 		return "loadpkg"
 	case "getconst_bs":
 		return "getconst"
+	case "pclass":
+		return "addclass"
+	case "piface":
+		return "addiface"
+	case "pfunc":
+		return "addfunc"
+	case "sdefine":
+		return "setconst"
 	}
 	return k
 }
@@ -456,11 +540,11 @@ func baseKind(k string) string {
 func partitionKey(p hx.HOp) string {
 	name, _, _ := strings.Cut(p.Arg, "#")
 	switch baseKind(p.Kind) {
-	case "addclass", "addiface", "getclass", "getiface", "loadpkg", "newobj":
+	case "addclass", "addiface", "getclass", "getiface", "loadpkg", "newobj", "sclassexists", "sifaceexists":
 		return "type:" + name
-	case "addfunc", "getfunc":
+	case "addfunc", "getfunc", "sfuncexists":
 		return "func:" + name
-	case "setconst", "getconst":
+	case "setconst", "getconst", "sgetconst":
 		return "const:" + name
 	case "global":
 		return "glob:" + name
@@ -510,6 +594,12 @@ var regModel = porcupine.Model{
 				return !strings.HasPrefix(st, "I:"), st
 			}
 			return st == "I:"+strings.TrimPrefix(out, "found:"), st
+		case "sclassexists":
+			return (out == "exists") == strings.HasPrefix(st, "C:") && (out == "exists" || out == "notfound"), st
+		case "sifaceexists":
+			return (out == "exists") == strings.HasPrefix(st, "I:") && (out == "exists" || out == "notfound"), st
+		case "sfuncexists", "sgetconst":
+			return (out == "exists") == (st != "") && (out == "exists" || out == "notfound"), st
 		case "loadpkg":
 			if out == "notfound" {
 				return st == "", st
